@@ -7,7 +7,7 @@ import props
 
 TEXT = {
  'C06': ('Rocq theorems about the executable word-level model of the Huffman container: optimal code lengths for every count profile; create_from builds correct prefix-free tables for every statistics; encoder, bit iterator and decoder exact at every alignment; RegionOK instance (round trip, append-only, clear, merge, refusal) under the single hypothesis that merged code lengths are at most 57 bits; + correspondence of the model with the crate (bit ranges, decoded symbols, refusals, cost) in two build profiles',
-         'hypothesis mergeable: code lengths <= 57 bits (the u64 encoder register; the crate concedes it); statistics counts < 2^63',
+         'hypothesis mergeable: code lengths <= 57 bits (the u64 encoder register; the crate concedes it), proved for fewer than 1 548 008 755 920 counted symbols; statistics counts < 2^63; defects D2, D3, D4, D11 repaired by fix: commits',
          'Rocq proof (word-level model, RegionOK instance) + model/impl differential'),
  'C13': ('Rocq theorems about slice and row read items in both representations: every accessor (len, is_empty, get, iteration, owned conversion) denotes the item\'s own elements, get(k) panics for every k >= len, and the slice iterators are exact-size state machines (the hint before every next is the number of items left) + correspondence on all positions 0..len+2 and usize::MAX-5..usize::MAX, ExactSizeIterator::len asked before every next',
          'defect D10 (slice iterators with the default size_hint) repaired by a fix: commit',
@@ -20,12 +20,21 @@ DEFAULT = ('Rocq theorems about the hand-written executable model (unbounded in 
            'see DESIGN.md section 8 (trusted base) and the property section',
            'Rocq proof + model/impl differential')
 
+NOTES = {
+ 'C07': 'known findings reported by this check: D13 (refused non-first element in columns / consec-over-slice over a coded region), D15 (no free tag), D16 (nested dictionary codecs); defects D5, D6 repaired by fix: commits',
+ 'C10': 'known finding reported by this check: D17 (unchecked length sums with zero-sized elements, overflow-checked builds only)',
+ 'C12': 'known findings reported by this check: D8 (ConsecutiveIndexPairs over CollapseSequence), D8b (over a tuple of usize-indexed regions)',
+ 'C17': 'defects D9 (SliceRegion::merge_regions) and D12 (FlatStack::reserve_items) repaired by fix: commits; theorems under the std Vec growth contract (Section hypotheses)',
+ 'C18': 'known finding reported by this check: D14 (DictionaryCodec::heap_size is a stub); sizes are parameters measured on the crate',
+}
+
 def main():
     ids = [json.loads(l)['id'] for l in open(os.path.join(ROOT, 'properties.jsonl'))]
     checks, na = [], []
     for pid in ids:
         if pid in props.PROPS:
             text, note, tech = TEXT.get(pid, DEFAULT)
+            if pid in NOTES: note = NOTES[pid]
             checks.append({
                 'property_id': pid,
                 'quick_cmd': f'python3 tools/check.py {pid} --tier quick',
